@@ -852,6 +852,8 @@ package scipipe
 
 // q is a direct upstream of p: some in-port or parameter in-port of p has a remote (out-)port owned by q
 //@ define directUp(q ref, p ref) bool = (exists i string, r string :: i in inPortsOf(p) && r in inPortsOf(p)[i].RemotePorts && inPortsOf(p)[i].RemotePorts[r].process == q) || (exists i string, r string :: i in inParamPortsOf(p) && r in inParamPortsOf(p)[i].RemotePorts && inParamPortsOf(p)[i].RemotePorts[r].process == q)
+// Process names identify processes (Workflow.AddProc refuses a second process with the same name).
+//@ axiom procName.identifies: forall p ref, q ref :: procName(p) == procName(q) ==> p == q
 //@ define listed(m map[string]WorkflowProcess, q ref) bool = procName(q) in m && m[procName(q)] == q
 
 //@ func upstreamProcsForProc(proc) (procs)
@@ -862,3 +864,17 @@ package scipipe
 //@   ensures direct-upstream-listed: forall q ref :: directUp(q, proc) ==> listed(procs, q)
 //@   ensures closed-under-upstream: forall k string, q ref :: k in procs && directUp(q, procs[k]) ==> listed(procs, q)
 //@   ensures only-upstream: forall k string :: k in procs ==> directUp(procs[k], proc) || (exists k2 string :: k2 in procs && directUp(procs[k], procs[k2]))
+//@   loop 0 invariant fresh: fresh(procs) && procs != nil
+//@   loop 0 invariant vis: forall i string :: $visited[i] ==> i in inPortsOf(proc)
+//@   loop 0 invariant keyed: forall k string :: k in procs ==> procs[k] != nil && procName(procs[k]) == k
+//@   loop 0 invariant direct: forall i string, r string :: $visited[i] && r in inPortsOf(proc)[i].RemotePorts ==> listed(procs, inPortsOf(proc)[i].RemotePorts[r].process)
+//@   loop 0 invariant closed: forall k string, q ref :: k in procs && directUp(q, procs[k]) ==> listed(procs, q)
+//@   loop 0 invariant only-upstream: forall k string :: k in procs ==> directUp(procs[k], proc) || (exists k2 string :: k2 in procs && directUp(procs[k], procs[k2]))
+//@   loop 1 invariant fresh: fresh(procs) && procs != nil
+//@   loop 1 invariant cur: inp != nil && (exists i string :: i in inPortsOf(proc) && !$visited0[i] && inPortsOf(proc)[i] == inp)
+//@   loop 1 invariant vis: forall r string :: $visited[r] ==> r in inp.RemotePorts
+//@   loop 1 invariant keyed: forall k string :: k in procs ==> procs[k] != nil && procName(procs[k]) == k
+//@   loop 1 invariant direct-prev: forall i string, r string :: $visited0[i] && inPortsOf(proc)[i] != inp && r in inPortsOf(proc)[i].RemotePorts ==> listed(procs, inPortsOf(proc)[i].RemotePorts[r].process)
+//@   loop 1 invariant direct-cur: forall r string :: $visited[r] ==> listed(procs, inp.RemotePorts[r].process)
+//@   loop 1 invariant closed: forall k string, q ref :: k in procs && directUp(q, procs[k]) ==> listed(procs, q)
+//@   loop 1 invariant only-upstream: forall k string :: k in procs ==> directUp(procs[k], proc) || (exists k2 string :: k2 in procs && directUp(procs[k], procs[k2]))
